@@ -405,6 +405,14 @@ func (fv *FV) havocGhost(st *State) {
 	for _, n := range names {
 		s := fv.u.db.GGlobal[n]
 		st.ghost[n] = Val{T: fv.fresh("gg_"+n, s), S: s}
+		fv.natGhost(st, n)
+	}
+}
+
+// natGhost: a ghost global declared "nat" is never negative.
+func (fv *FV) natGhost(st *State, n string) {
+	if fv.u.db.GNat[n] {
+		st.assume(fmt.Sprintf("(>= %s 0)", st.ghost[n].T))
 	}
 }
 
@@ -515,6 +523,7 @@ func (fv *FV) applyModify(st *State, m *Expr, env *Env) {
 			st.pendingGhost = append(st.pendingGhost, [2]string{m.Name, oldv.T})
 		}
 		st.ghost[m.Name] = Val{T: fv.fresh("gg_"+m.Name, s), S: s}
+		fv.natGhost(st, m.Name)
 		return
 	case m.Op == "call" && m.Name == "HA":
 		s := fv.evalSpec(m.Args[0], env)
